@@ -19,6 +19,7 @@ import (
 	"fmt"
 	"os"
 	"sync"
+	"sync/atomic"
 	"testing"
 	"time"
 )
@@ -200,4 +201,96 @@ func TestVerifDriverC07(t *testing.T) {
 	} else {
 		t.Fatalf("%d failures", fails)
 	}
+}
+
+// Concurrent section (fall-back and thorough tier only: VERIF_DRIVER_REASON != quick).
+// A few application goroutines, each owning ONE identity, cycle {obtain the subscope,
+// Inc, Close} while the periodic report pass runs on a very short ticker.  Every Inc
+// happens before the Close of the scope it was made on, so once the root is closed every
+// increment must have been delivered, exactly once - whatever the interleaving.
+// BOUNDED: 8 rounds of 400 ms over {1, 4} shards x {2, 4} workers x {plain, cached};
+// a schedule-dependent loss may need more rounds to show.
+type vdC07Sum struct{ delivered int64 }
+
+func (r *vdC07Sum) ReportCounter(_ string, _ map[string]string, v int64) {
+	atomic.AddInt64(&r.delivered, v)
+}
+func (r *vdC07Sum) ReportGauge(string, map[string]string, float64)       {}
+func (r *vdC07Sum) ReportTimer(string, map[string]string, time.Duration) {}
+func (r *vdC07Sum) Capabilities() Capabilities                           { return capabilitiesReportingTagging }
+func (r *vdC07Sum) Flush()                                               {}
+func (r *vdC07Sum) ReportHistogramValueSamples(string, map[string]string, Buckets, float64, float64, int64) {
+}
+func (r *vdC07Sum) ReportHistogramDurationSamples(string, map[string]string, Buckets, time.Duration, time.Duration, int64) {
+}
+
+type vdC07SumCount struct{ r *vdC07Sum }
+
+func (c vdC07SumCount) ReportCount(v int64) { atomic.AddInt64(&c.r.delivered, v) }
+
+type vdC07SumCached struct{ r *vdC07Sum }
+
+func (c vdC07SumCached) Capabilities() Capabilities { return capabilitiesReportingTagging }
+func (c vdC07SumCached) Flush()                     {}
+func (c vdC07SumCached) AllocateCounter(string, map[string]string) CachedCount {
+	return vdC07SumCount{c.r}
+}
+func (c vdC07SumCached) AllocateGauge(string, map[string]string) CachedGauge { return vdC07Nop{} }
+func (c vdC07SumCached) AllocateTimer(string, map[string]string) CachedTimer { return vdC07Nop{} }
+func (c vdC07SumCached) AllocateHistogram(string, map[string]string, Buckets) CachedHistogram {
+	return nil
+}
+
+func TestVerifDriverC07Concurrent(t *testing.T) {
+	if r := os.Getenv("VERIF_DRIVER_REASON"); r == "" || r == "quick" {
+		fmt.Println("DRIVER-RESULT: ok C07 concurrent section skipped in the quick tier")
+		return
+	}
+	fails := 0
+	round := 0
+	for _, shards := range []uint{1, 4} {
+		for _, workers := range []int{2, 4} {
+			for _, cached := range []bool{false, true} {
+				round++
+				rep := &vdC07Sum{}
+				opts := ScopeOptions{OmitCardinalityMetrics: true, registryShardCount: shards}
+				if cached {
+					opts.CachedReporter = vdC07SumCached{rep}
+				} else {
+					opts.Reporter = rep
+				}
+				root, closer := NewRootScope(opts, 20*time.Microsecond)
+				var wg sync.WaitGroup
+				var stop int32
+				var made int64
+				for w := 0; w < workers; w++ {
+					wg.Add(1)
+					go func(w int) {
+						defer wg.Done()
+						tags := map[string]string{"id": fmt.Sprintf("w%d", w)}
+						var n int64
+						for atomic.LoadInt32(&stop) == 0 {
+							s := root.Tagged(tags)
+							s.Counter("c").Inc(1)
+							n++
+							_ = s.(*scope).Close()
+						}
+						atomic.AddInt64(&made, n)
+					}(w)
+				}
+				time.Sleep(400 * time.Millisecond)
+				atomic.StoreInt32(&stop, 1)
+				wg.Wait()
+				_ = closer.Close()
+				if m, d := atomic.LoadInt64(&made), atomic.LoadInt64(&rep.delivered); m != d {
+					fails++
+					fmt.Printf("DRIVER-FAIL: concurrent close/re-obtain: shards=%d workers=%d cached=%v: %d increments made before the Close of their scope, %d delivered\n", shards, workers, cached, m, d)
+				}
+			}
+		}
+	}
+	if fails > 0 {
+		t.Fatalf("%d failures", fails)
+	}
+	fmt.Printf("DRIVER-RESULT: ok C07 concurrent section: %d rounds\n", round)
 }
